@@ -11,34 +11,12 @@ from ..deriv import _short, _project, _zip, _ShapeMismatch
 CODE_REGS = ("statement", "set_line", "set_was_in_line", "tables")
 
 
-def w(*xs):
-    xs = list(xs)
-    return W([xs[i % len(xs)] for i in range(6)])
+from ..specs.lines import w, CODE as _CODE, ALLOWED as _ALLOWED, OUTSIDE
+
+CODE = collections.OrderedDict(_CODE)
+ALLOWED = dict(_ALLOWED)
 
 
-# ---- line classes, written as lines look after pre_process_data (commas / parentheses spaced) ------------------
-CODE = collections.OrderedDict([
-    ("open", w("CREATE TABLE t  ( ", "create table Users  ( ", "CREATE TABLE s.x_1  ( ", "Create Table IF NOT EXISTS o  ( ")),
-    ("column,", w("a int , ", "id varchar ( 10 )  , ", "Col DECIMAL ( 10 , 2 )  NOT NULL , ", "    created_at timestamp DEFAULT now ( )  , ")),
-    ("column", w("b int", "uid text", "z_9 bigint DEFAULT 1", "    note varchar ( 5 )  NULL")),
-    ("close;", w(" ) ;", " )  ;", ") ;", "  ) ;")),
-    ("close", w(" ) ", " )", ")", "  ) ")),
-    ("clause;", w("TABLESPACE ts ;", "STORED AS parquet ;", "ENGINE = InnoDB ;", "  LOCATION 'x' ;")),
-    ("one-line", w("CREATE TABLE u  ( x int )  ;", "create sequence sq start with 1 ;", "CREATE SCHEMA sc ;", "ALTER TABLE t ADD UNIQUE  ( a )  ;")),
-    ("one-line-no-semicolon", w("CREATE TABLE v  ( y int ) ", "create table W2  ( k text ) ", "CREATE TABLE s.q  ( z int ) ", "Create Table r  ( c int ) ")),
-    ("skipped;", w("USE db ;", "INSERT INTO t VALUES  ( 1 )  ;", "GRANT ALL ON t TO u ;", "delete from t ;")),
-    ("skipped-bare", w("GO", "go", "Go", "GO")),
-    ("blank", w("", "", "   ", "")),
-    ("set;", w("SET hive.x = 1;", "set a = b;", "SET k2=9;", "Set k = 'v';")),
-    ("set-to;", w("SET search_path TO public;", "set role to admin;", "SET NAMES utf8;", "Set x y;")),
-    ("literal--", w("a varchar DEFAULT 'x--y' , ", "id text COMMENT 'a -- b' , ", "Col char ( 2 )  DEFAULT \"--\" , ", "    c varchar DEFAULT '--' NOT NULL , ")),
-    ("literal", w("a varchar DEFAULT 'x y' , ", "id text COMMENT 'the id' , ", "Col char ( 1 )  DEFAULT \"n\" , ", "    c varchar DEFAULT 'p' NOT NULL , ")),
-])
-# which code lines a well-formed script can continue with, by the shape of the pending statement of the plain script
-OUTSIDE = ("open", "one-line", "one-line-no-semicolon", "skipped;", "skipped-bare", "blank", "set;", "set-to;")
-ALLOWED = {"none": OUTSIDE, "empty": OUTSIDE,
-           "open": ("column,", "column", "literal", "literal--", "close;", "close", "blank"),
-           "balanced": ("clause;", ) + OUTSIDE}
 # comment texts: quote-free, with SQL keywords, commas, parentheses, semicolons (as the property stipulates)
 TEXTS = collections.OrderedDict([
     ("plain", w(" some note", " id of the user", " TODO check", " x")),
